@@ -24,7 +24,9 @@ DERIVES = ["cast_domain", "real", "imag", "conjugate", "neg", "at", "extract", "
            # fields that come into existence by (un)pickling / copying an existing field
            "pickle_default", "pickle_p2", "pickle_highest", "deepcopy", "copy_copy"]
 HANDLES = ["val", "raw", "asnumpy", "val.asnumpy", "val.val", "val_slice", "val_view", "val_reshape", "val_T",
-           "val_real", "val_rw", "asnumpy_rw", "val_flatten_index", "to_dict_val"]
+           "val_real", "val_rw", "asnumpy_rw", "val_flatten_index", "to_dict_val",
+           # containers handed out by a MultiField (dicts are mutable: editing them must not reach the field)
+           "mf_val_dict", "mf_to_dict", "mf_asnumpy_dict"]
 OPS = ["makeOp", "Adder", "GaussianEnergy", "ScalingLike"]
 TOUCHES = ["asnumpy", "val", "copy", "view", "at", "lock", "readonly", "np_asarray", "getitem", "astype", "reshape"]
 WRITES = ["setitem", "setslice", "iadd", "np_add_out", "fill", "sort", "copyto", "imul_scalar", "np_multiply_out_any",
@@ -68,6 +70,14 @@ def read(f):
     if isinstance(f, ift.MultiField):
         return {k: np.array(v.val.val, copy=True) for k, v in f.items()}
     return {"": np.array(f.val.val, copy=True)}
+
+
+def read_via_container(f):
+    """What a MultiField reports through its `.val` container (a second, independent way to look at it)."""
+    import nifty.cl as ift
+    if not isinstance(f, ift.MultiField):
+        return None
+    return {k: np.array(v.val if isinstance(v, ift.AnyArray) else v, copy=True) for k, v in f.val.items()}
 
 
 def same(a, b):
@@ -181,6 +191,8 @@ def step_reconstruct(w, how, j, ctor):
         return
     t = w.targets[j % len(w.targets)]
     obj = t["obj"]
+    if isinstance(obj, dict):
+        return
     isany = isinstance(obj, ift.AnyArray)
     wrap = (lambda x: ift.AnyArray(x)) if isany else (lambda x: x)
     try:
@@ -298,6 +310,20 @@ def step_handle(w, how, i, pick):
     if not w.fields:
         return
     ent = w.fields[i % len(w.fields)]
+    if how in ("mf_val_dict", "mf_to_dict", "mf_asnumpy_dict"):
+        import nifty.cl as ift
+        if not isinstance(ent["f"], ift.MultiField):
+            return
+        try:
+            h = {"mf_val_dict": lambda: ent["f"].val, "mf_to_dict": lambda: ent["f"].to_dict(),
+                 "mf_asnumpy_dict": lambda: ent["f"].asnumpy()}[how]()
+        except (TypeError, AttributeError):
+            return
+        if isinstance(h, dict):
+            w.targets.append({"obj": h, "label": f"handle:{how}", "copy": False})
+            w.stats["handles"] += 1
+            w.stats["container_handles"] = w.stats.get("container_handles", 0) + 1
+        return
     f = leaf(ent["f"], pick)
     copy = False
     try:
@@ -376,6 +402,8 @@ def step_touch(w, how, j):
         return
     t = w.targets[j % len(w.targets)]
     obj = t["obj"]
+    if isinstance(obj, dict):
+        return
     isany = isinstance(obj, ift.AnyArray)
     new = None
     try:
@@ -420,6 +448,22 @@ def step_write(w, how, j, seed):
     obj = t["obj"]
     val = float(np.random.default_rng(seed).normal()) + 100.0
     isany = isinstance(obj, ift.AnyArray)
+    if isinstance(obj, dict):
+        # editing a container obtained from a MultiField: replace / remove / add an entry
+        w.stats["writes_attempted"] += 1
+        w.stats["container_edits"] = w.stats.get("container_edits", 0) + 1
+        keys = sorted(obj)
+        kind = ("replace", "pop", "add")[WRITES.index(how) % 3]
+        if kind == "replace" and keys:
+            old = obj[keys[0]]
+            shp = getattr(old, "shape", None) or ()
+            obj[keys[0]] = ift.AnyArray(np.full(shp, val)) if isinstance(old, ift.AnyArray) else np.full(shp, val)
+        elif kind == "pop" and keys:
+            obj.pop(keys[-1])
+        else:
+            obj["zzz_added"] = np.full((2,), val)
+        w.stats["writes_succeeded_on_copy"] += 1
+        return {"how": "dict_" + kind, "target": t["label"], "raised": None, "target_type": "dict"}
     w.stats["writes_attempted"] += 1
     w.stats["write_after_asnumpy" if w.asnumpy_called else "write_before_first_asnumpy"] += 1
     raised = None
@@ -490,7 +534,8 @@ def step_write(w, how, j, seed):
 def check(w, last):
     w.stats["checks"] += 1
     for ent in w.fields:
-        if not same(read(ent["f"]), ent["snap"]):
+        via_c = read_via_container(ent["f"])
+        if not same(read(ent["f"]), ent["snap"]) or (via_c is not None and not same(via_c, ent["snap"])):
             via = f"{last['target']}:{last['how']}" if last else "no-write"
             raise Violation({"oracle": "field-changed", "ctor": ent["ctor"].split(".")[0],
                              "via": via.split("[")[0] + ("" if "[" not in via else via[via.index("]") + 1:]),
